@@ -292,8 +292,9 @@ def gen_reuse_session(rng, tier, idx):
         prev_base = base
     return frames
 
-def gen_frame(rng, tier, big=False):
-    """one streaming frame: prefs, dictionary kind, op script with data"""
+def gen_frame(rng, tier, big=False, force_dk=None):
+    """one streaming frame: prefs, dictionary kind, op script with data (force_dk: list of dictionary kinds to draw from,
+    with dictionary sizes weighted towards > 64 KB - used by C12's LZ4F dictionary cases)"""
     p = gen_prefs(rng, tier)
     bs = BSIZE.get(p["bsid"], 65536)
     kind = rng.choice(SCRIPT_KINDS)
@@ -326,6 +327,10 @@ def gen_frame(rng, tier, big=False):
         n = rng.choice([10000, 30000, 70000])
         dk = rng.choice(["n", "d", "c", "c"])
         dlen = rng.choice(DICT_SIZES) if dk != "n" else 0
+    if force_dk:
+        dk = rng.choice(force_dk)
+        dlen = rng.choice([100, 4000, 65536, 70000, 70000, 100000, 100000])
+        n = min(max(n, 5000), 200000)
     dkind, dic, X, period = gen_material(rng, n, dlen, tier, "drift" if kind in ("volatile", "indep") else None)
     script = split_script(rng, kind, n, bs, p["blockMode"] == 1, p["autoFlush"])
     total = sum(s for o, s in script)
@@ -846,7 +851,7 @@ def run_session_case(st, case, which):
             if rng.random() < 0.25:
                 stray_ops(st, cs, rng, res, None)
             for fi in range(nframes):
-                fr = gen_frame(rng, tier, big=case.get("big", False))
+                fr = gen_frame(rng, tier, big=case.get("big", False), force_dk=case.get("force_dk"))
                 if case.get("force"):
                     fr["prefs"].update(case["force"])
                 if rng.random() < 0.05:
